@@ -103,7 +103,7 @@ pub fn replay_case(id: &str, op: &str, case: &serde_json::Value) -> Result<(), S
         (_, "conversions_enum") | (_, "conversions_lexical") => c15::replay_case(case),
         (_, "enum_parse_total") | (_, "parse_error_grid") => c04::replay_case(case),
         (_, "lexical_parse_total") | (_, "fold_total") => c05::replay_case(case),
-        (_, "parse_wf") | (_, "fold_wf") | (_, "text_fold_wf") => c12::replay_case(case),
+        (_, "parse_wf") | (_, "fold_wf") | (_, "text_fold_wf") | (_, "side_door_wf") => c12::replay_case(case),
         (_, "eq_pair") => c06::replay_case(case),
         (_, "hash_pair") => c07::replay_case(case),
         (_, "typst_collision") | (_, "typst_render") => c16::replay_case(case),
